@@ -1,15 +1,21 @@
 #!/usr/bin/env python3
-"""DEVELOPMENT TOOL, never run by a check: regenerate known_findings_sweep.json (and tools/sweep_maxlen.json with
---maxlen) from the failures of the sweeps of tools/cpu_sweep.py on the CURRENT tree (thorough tier = superset of
-the quick tier).  Run it only on a tree whose failures have been looked at: every entry it writes says that the
-unchanged code violates the property on that input.  usage: sweep_regen.py C01 C06 C07 C08 [--maxlen]"""
+"""DEVELOPMENT TOOL, never run by a check: rewrite the entries of known_findings_sweep.json for the named properties
+from the failures of the all-CPU sweeps (tools/cpu_sweep.py) on the CURRENT tree, thorough tier (its input sets contain
+the quick tier's).  Run it only on a tree whose failures have been triaged: every entry it writes claims that the
+unchanged code violates the property on that input (notes/sweep.md records the triage).
+usage: NV_REPO=<tree> sweep_regen.py C01 C06 C07 C08"""
 import sys, os, json, re
 sys.path.insert(0, os.path.dirname(os.path.abspath(__file__)))
 import nvlib, cpu_sweep
 from check import Ctx
 
+KIND_WHAT = {"short": "length below one address unit", "nonlocal": "text/length depend on bytes outside the instruction",
+             "nonul": "text not NUL-terminated in the buffer", "crash": "sanitizer report / crash", "hang": "no return within 20 s"}
+
+
 def main():
     props = [a for a in sys.argv[1:] if not a.startswith("--")]
+    assert not os.environ.get("NV_SWEEP_ONLY"), "NV_SWEEP_ONLY restricts the input sets"
     repo = nvlib.build_repo()
     path = os.path.join(nvlib.VERIF, "known_findings_sweep.json")
     data = json.load(open(path))
@@ -17,39 +23,35 @@ def main():
         ctx = Ctx(prop, "thorough", 0)
         ctx.repo = repo
         ctx.harness = nvlib.build_tool("nv_harness", ["nv_harness.cpp"], repo)
-        if prop == "C08" and "--maxlen" in sys.argv:
-            res = cpu_sweep.disxb_all(ctx, cpu_sweep.cpu_table(ctx), cpu_sweep.A0)
-            nvlib.write_json(os.path.join(nvlib.VERIF, "tools", "sweep_maxlen.json"), {c: r["max"] for c, r in res.items()})
-        # member sets must be rebuilt from scratch: hide the old ones
+        # the member sets of the old entries must not hide members: drop them first
         data["entries"] = [e for e in data["entries"] if e["property"] != prop]
         json.dump(data, open(path, "w"), indent=1)
         orc = {"cases": 0, "failures": [], "stats": {}}
         getattr(cpu_sweep, prop.lower() + "_oracle")(ctx, orc)
-        ents = []
-        groups = {}
+        ents, seen = [], set()
+        members = orc.get("_c08_members", {})
         for f in orc["failures"]:
-            m = re.match(r"^(C08:sweep:[a-z0-9_]+:(?:short|nonlocal|nonul|crash)):([0-9a-f]{4})$", f["sig"])
+            sig = f["sig"]
+            m = re.match(r"^(C08:sweep:[a-z0-9_]+:(?:short|nonlocal|nonul|crash|hang)(?:@[a-z0-9]+)?):([0-9a-f]{4})$", sig)
             if m:
-                groups.setdefault(m.group(1), []).append(f)
+                sig = m.group(1)          # member of a class: the class entry below names every member
+            if sig in seen:
                 continue
-            ents.append({"property": prop, "id": "sweep-" + nvlib.sha(f["sig"].encode())[:10], "state": "finding",
-                         "match": re.escape(f["sig"]), "what": ("%s: %s; expected %s; observed %s" % (f["input"], f["what"], f["expected"], f["observed"]))[:400],
-                         "replay": f.get("replay_line", "")})
-        if prop == "C08":
-            # full member sets (the oracle reports only the first few new members of a class)
-            res = cpu_sweep.disxb_all(ctx, cpu_sweep.cpu_table(ctx), cpu_sweep.A0)
-            for c, r in res.items():
-                for kind, members in r["bad"].items():
-                    sig = "C08:sweep:%s:%s" % (c, kind)
-                    ents.append({"property": prop, "id": "sweep-" + nvlib.sha(sig.encode())[:10], "state": "finding",
-                                 "match": re.escape(sig), "sig": sig, "members": cpu_sweep.set_to_ranges(members),
-                                 "what": ".%s: %d of the 65536 two-byte prefixes (+ fixed tail) are disassembled with defect '%s' (%s)" % (
-                                     c, len(members), kind, {"short": "length below one address unit", "nonlocal": "text/length depend on bytes after the reported length",
-                                                             "nonul": "text not NUL-terminated in the buffer", "crash": "sanitizer report / crash"}[kind]),
-                                 "replay": "disx %s %x %04x%s" % (c, cpu_sweep.A0, sorted(members)[0], cpu_sweep.TAIL)})
+            seen.add(sig)
+            e = {"property": prop, "id": "sweep-" + nvlib.sha(sig.encode())[:10], "state": "finding", "match": re.escape(sig),
+                 "what": ("%s: %s; expected %s; observed %s" % (f["input"], f["what"], f["expected"], f["observed"]))[:400],
+                 "replay": f.get("replay_line", "")}
+            if sig in members:
+                mem = members[sig]
+                kind = sig.split(":")[3].split("@")[0]
+                e.update({"sig": sig, "members": cpu_sweep.set_to_ranges(mem),
+                          "what": "%s: %d of the 65536 16-bit patterns of this input set are disassembled with defect '%s' (%s)" % (
+                              sig, len(mem), kind, KIND_WHAT.get(kind, kind))})
+            ents.append(e)
         data["entries"] += ents
-        print(prop, "entries:", len(ents))
+        print(prop, "entries:", len(ents), "cases:", orc["cases"])
         json.dump(data, open(path, "w"), indent=1)
+
 
 if __name__ == "__main__":
     main()
